@@ -419,7 +419,9 @@ def check(ctx):
         # panic of their own - an arithmetic check that can fail (`Sub1::<N>::USIZE - 1` for N == 1), an index out of range, an unwrap. The
         # unchecked removals are judged under their precondition idx < N (the checked wrappers assert it: C09.A).
         from ..rules import reachable_panics as _rp
-        if not cfg.endswith("N"):
+        # judged where debug assertions do not exist but the arithmetic checks do (the F*N configurations): a `debug_assert!` of an internal
+        # invariant is not a way of answering the caller, an overflow check is
+        if cfg.endswith("N"):
             for nm_, tr_ in (("append", "Lengthen<$0>"), ("prepend", "Lengthen<$0>"), ("pop_back", "Shorten<$0>"), ("pop_front", "Shorten<$0>"),
                              ("concat", "Concat<$0,$2>"), ("split", "Split<$0,$2>"), ("remove_unchecked", "Remove<$0,$1>"), ("swap_remove_unchecked", "Remove<$0,$1>")):
                 k_ = SEQ % (tr_, nm_)
